@@ -16,6 +16,7 @@ EXPLANATION = (
     "children.is_empty() after the recursive call; a leaf with arguments survives iff !args.is_empty(). R13.4 one "
     "naming function: the path pieces used for filtering, listing and painting all come from display_name() and the "
     "same args vector. R13.5 run_action filters before listing, sorting and running. R13.2 also: SplitVec::all is the whole items slice, split_index the stored index, set_split_index stores its argument. R13.1 also: include/exclude/insert_filter store the filter on every path.")
+EXPLANATION += (" R13.6 the clap definitions of the positional `filter` and of `--skip` collect every occurrence as one value (ArgAction::Append) and carry only value-neutral builder calls (no delimiter, value parser, default, arity change), so each filter reaches the filter set exactly as typed.")
 NOT_DECIDED = ["regular-expression semantics (regex-lite trusted)", "string equality of the two format! path builders beyond the shared accessor and '::' separator"]
 TRUSTED = ["regex_lite::Regex::is_match is an unanchored search"]
 
@@ -846,7 +847,63 @@ def r13_5(ctx, prog, crate):
                   "the retain predicate post-processes Divan::filter's answer", c.line())
 
 
+# clap::Arg builder methods that leave the values of an argument exactly as typed (presentation, naming, where the value
+# may also come from); everything else (value_delimiter, value_parser, num_args, default_value, value_terminator, ...)
+# changes which strings reach the filter set and is reported
+FILTER_ARG_NEUTRAL = {"new", "long", "value_name", "help", "long_help", "action", "env", "hide", "hide_env", "hide_env_values",
+                      "display_order", "help_heading", "next_line_help", "visible_alias", "alias", "short", "id"}
+
+
+def r13_6(ctx, prog, crate):
+    """The filter strings reach the filter set as typed: the clap definitions of the positional `filter` and of `--skip`
+    collect each occurrence as one value (ArgAction::Append) and carry no value-transforming builder call - a delimiter
+    would split a filter at every comma (display paths contain commas: tuple arguments, `Map<K, V>`, `a{1,3}`), a value
+    parser / default / num_args would change which strings become filters."""
+    from rules.C15 import const_str, defined_candidates
+    cmd = prog.body("cli::command", crate)
+    if not ctx.anchor("R13.6", "cli::command", 1 if cmd else 0, 1):
+        return
+    ctx.saw(cmd)
+    helpers = {b.path: b for b in prog.lib_bodies(crate) if b.path.startswith("cli::command::") and b.kind in ("Fn", "AssocFn")}
+    seen = {"filter": [], "skip": []}
+    for c in cmd.live_calls():
+        if not c.callee.startswith("clap::Arg::") and not c.callee.startswith("clap::builder::Arg::"):
+            continue
+        n = c.callee.rsplit("::", 1)[-1]
+        if n == "new":
+            v = const_str(c.args[0])
+            if v in seen:
+                seen[v].append((n, c))
+            continue
+        for i in sorted(defined_candidates(cmd, c) & set(seen)):
+            seen[i].append((n, c))
+    for i, calls in sorted(seen.items()):
+        if not ctx.check(bool(calls), "R13.6", [i, "defined-in-cli::command"], "cli::command has no builder call for `%s`" % i, cmd.where(0)):
+            continue
+        for n, c in calls:
+            ctx.check(n in FILTER_ARG_NEUTRAL, "R13.6", [i, "values-as-typed", n],
+                      "the `%s` argument is built with clap's `%s`: each filter must reach the filter set exactly as typed, one per "
+                      "occurrence (no delimiter / parser / default / arity change)" % (i, n), c.line(), detail={"arg": i, "method": n})
+        acts = [c for n, c in calls if n == "action"]
+        if ctx.check(len(acts) == 1, "R13.6", [i, "one-action"], "`%s` sets its action %d times" % (i, len(acts)), calls[0][1].line()):
+            srcs = cmd.prov.op_src(acts[0].args[1])
+            kinds = {s.label() for s in srcs}
+            ok = any("Append" in k for k in kinds) and len(kinds) == 1
+            ctx.check(ok, "R13.6", [i, "action-is-Append"], "`%s` collects its values with %s, expected ArgAction::Append (every occurrence is a filter)" % (i, sorted(kinds)), acts[0].line())
+    # the helper that builds `--skip` must itself be neutral
+    for hp, hb in sorted(helpers.items()):
+        if hp.rsplit("::", 1)[-1] != "option":
+            continue
+        ctx.saw(hb)
+        for c in hb.live_calls():
+            if c.callee.startswith("clap::"):
+                n = c.callee.rsplit("::", 1)[-1]
+                ctx.check(n in FILTER_ARG_NEUTRAL, "R13.6", ["option()", "values-as-typed", n],
+                          "the option() helper every --option (and so --skip) goes through calls clap's `%s`" % n, c.line())
+
+
 def run(ctx, prog, crate):
+    r13_6(ctx, prog, crate)
     r13_1(ctx, prog, crate)
     r13_2(ctx, prog, crate)
     r13_3(ctx, prog, crate)
